@@ -263,7 +263,7 @@ func selectStatesAt(b *ssa.BasicBlock) []selAt {
 func inSelectRecvOn(b *ssa.BasicBlock, f *types.Var) (*ssa.Select, int, bool) {
 	for _, s := range selectStatesAt(b) {
 		st := s.Sel.States[s.State]
-		if st.Dir == types.RecvOnly && chanField(st.Chan) == f {
+		if st.Dir == types.RecvOnly && chanIs(st.Chan, f) {
 			return s.Sel, s.State, true
 		}
 	}
